@@ -673,6 +673,12 @@ pub fn search(spec: &CheckSpec, tier: Tier, base_seed: u64, workers: usize, scal
         if n == 0 {
             continue;
         }
+        // debugging aid (never set by ./check): run one scenario of the property only
+        if let Ok(only) = std::env::var("QXSIM_ONLY") {
+            if part.scen.name() != only {
+                continue;
+            }
+        }
         let next = AtomicU64::new(0);
         let min_bad = AtomicU64::new(u64::MAX);
         let results: Mutex<Vec<(u64, Plan, Violation)>> = Mutex::new(vec![]);
@@ -773,6 +779,7 @@ pub fn sample_json(plan: &Plan) -> Value {
         "eof_at": plan.stream.eof_at,
         "enumerate": plan.enumerate,
         "type_id": plan.type_id,
+        "target_type": plan.shape.as_ref().map(crate::scen_dyn::describe),
         "builds": plan.builds.iter().take(16).map(|b| format!("{:?}", b)).collect::<Vec<_>>(),
         "pipe": if plan.builds.is_empty() { Value::Null } else { serde_json::to_value(&plan.pipe).unwrap() },
         "note": plan.note,
